@@ -2,6 +2,7 @@
 (* Code -> spec validation of recorded LinearConstraints.from_spec calls (C16). *)
 EXTENDS Integers, Sequences, FiniteSets, TLC, TLCExt, Json, CSV, IOUtils, SequencesExt
 
+SignRule == "parity"
 C == INSTANCE Constraints
 TraceRecs == JsonDeserialize(IOEnv.TRACE_FILE)
 Rej == IOEnv.REJ_FILE
